@@ -65,6 +65,10 @@ func c05Gen(rng *rand.Rand, tier string, w *bufio.Writer) {
 	emit("p0", []string{"set 11 k0|u8:1|||||", "inc u8 k0 1 eq:5 - 0||1|u2|b3600000000000", "get k0", "restart", "get k0"})
 	emit("p1", []string{"set 11 k0|u8:1|||||", "restart", "inc u8 k0 1 eq:5 - 0||1|u2|b3600000000000", "get k0", "restart", "get k0"})
 	emit("mem", []string{"set 11 k0|i64:5|||||", "restart", "issw", "set 11 k0|i64:0|||||", "get k0"})
+	// delete, re-create and delete a persisted key within one write interval: the queued delete is
+	// replaced by the new treasure, which is then dropped from the write buffer unwritten
+	emit("p1", []string{"set 11 k0|i64:5||||| k1|i64:6|||||", "close", "del k0", "inc i64 k0 1 - - -", "del k0", "getall", "close", "getall", "count"})
+	emit("p0", []string{"set 11 k0|i64:5||||| k1|i64:6|||||", "close", "del k0", "inc i64 k0 1 - - -", "del k0", "getall", "close", "getall", "count"})
 	readBack := func() []string {
 		return []string{"getall", "count", "get " + strings.Join(c06Keys, " "), "issw"}
 	}
